@@ -6,6 +6,7 @@ import Driver.Apl
 import Driver.Csv
 import Driver.Sqlw
 import Driver.Sqlr
+import Driver.Misc
 /-
   gfdriver: reads protocol lines (one case per line) from the file given as first argument (or stdin),
   writes one verdict line per case: `<case-id> <engine> key=value …`.
@@ -26,6 +27,7 @@ def checkLine (line : String) : String :=
       | "SQLW" => checkSqlw
       | "QID" => checkQid
       | "SQLR" => checkSqlr
+      | "MISC" => checkMisc
       | "PLOT" => (do
           let _ ← pOracle
           expect "PLOT"
